@@ -111,16 +111,19 @@ func tokenizeStream(src io.Reader, normalize bool, dict *dictionary, updateDict 
 		// Fill up the buffer with bytes to extract runes from
 		// idx is offset to hold any bytes left over from previous reads
 		n, err := readFull(rbuf[idx:])
+		// Only the first end bytes of the buffer hold input; anything after them
+		// is left over from an earlier fill and must not be decoded.
+		end := idx + n
 		if err == io.EOF {
 			// There are no more bytes to read, so we must now consume all bytes in the
 			// buffer.
-			tgt = idx + n
+			tgt = end
 		} else if err != nil {
 			return nil, err
 		}
 
 		for idx = 0; idx < tgt; {
-			r, n := utf8.DecodeRune(rbuf[idx:])
+			r, n := utf8.DecodeRune(rbuf[idx:end])
 			idx += n
 
 			if r == '\n' {
@@ -228,7 +231,7 @@ func tokenizeStream(src io.Reader, normalize bool, dict *dictionary, updateDict 
 
 		// Copy the unconsumed bytes at the end of the buffer to the start
 		// of the buffer so the next read appends after them.
-		n = copy(rbuf, rbuf[idx:])
+		n = copy(rbuf, rbuf[idx:end])
 		idx = n
 	}
 
